@@ -1,5 +1,7 @@
 mod backendfam;
 mod chain;
+mod crashfam;
+mod faultstore;
 mod cloudfam;
 mod cryptofam;
 mod dbhist;
@@ -155,6 +157,22 @@ fn main() {
                 }).collect())
                 .unwrap_or_default();
             writeln!(out, "{}", cryptofam::run(seed, count, &ms)).unwrap();
+        }
+        "sqlite-crash" => {
+            for id in first..first + count {
+                emit(&mut out, util::guarded(|| crashfam::gen_crash(seed, id, maxlen)));
+            }
+        }
+        "sqlite-crash-exec" => {
+            let p = arg(&args, "--script").expect("--script");
+            let s: Value = serde_json::from_str(&std::fs::read_to_string(p).unwrap()).unwrap();
+            emit(&mut out, util::guarded(|| crashfam::exec_crash(&s)));
+        }
+        "sqlite-child" => {
+            crashfam::child(&arg(&args, "--dir").expect("--dir"), count);
+        }
+        "sqlite-kill" => {
+            writeln!(out, "{}", crashfam::kill_runs(seed, count)).unwrap();
         }
         "storage-legacy" => {
             writeln!(out, "{}", legacy::run(seed, count.max(40))).unwrap();
